@@ -121,6 +121,13 @@ func (e *encoder) walk(v any, path string, depth int) any {
 		}
 		e.path = e.path[:len(e.path)-1]
 		return out
+	case []map[string]any:
+		// a Go-typed array of objects (it can only come from a Go-typed input): plain data
+		out := make([]any, len(x))
+		for i := range x {
+			out[i] = e.walk(x[i], fmt.Sprintf("%s[%d]", path, i), depth+1)
+		}
+		return out
 	case []any:
 		p := reflect.ValueOf(x).Pointer()
 		if len(x) > 0 && e.onPath(p) {
